@@ -2,6 +2,7 @@ package stdlib
 
 import (
 	"fmt"
+	"math/big"
 
 	"github.com/zclconf/go-cty/cty"
 	"github.com/zclconf/go-cty/cty/convert"
@@ -183,6 +184,18 @@ var RangeFunc = function.New(&function.Spec{
 				return cty.NilVal, function.NewArgErrorf(1, "end must be greater than start when step is positive")
 			}
 		}
+
+		defer func() {
+			// stepping from one infinity toward the other has no defined next number
+			if r := recover(); r != nil {
+				if _, ok := r.(big.ErrNaN); ok {
+					ret = cty.NilVal
+					err = fmt.Errorf("can't step from an infinite start toward the opposite infinity")
+				} else {
+					panic(r)
+				}
+			}
+		}()
 
 		num := start
 		for {
